@@ -41,7 +41,7 @@ def handle (line : String) : String :=
     match (inp.splitOn " ").filter (· ≠ "") with
     -- `R <hex>` (the name of the project directory) and `L <paths>` (entries the harness realises as symbolic links to
     -- something outside the project) do not concern the model: a path is a path, whatever it is reached through
-    | "T" :: tr :: "P" :: ps :: _ =>
+    | "T" :: tr :: "P" :: ps :: opts =>
       match parseEntries tr "," with
       | none => "BAD-CASE || C05=FAIL"
       | some es =>
@@ -58,7 +58,19 @@ def handle (line : String) : String :=
               | some o, some o2, some ob => if c05 t pat o o2 ob then "ok" else "FAIL"
               | _, _, _ => "FAIL"
             let leg := if pat.any Seg.hasAlt then "na" else showList ((run legacyCallback t pat).map showVisit)
-            s!"SEQ {seq} ; SET {showList (sortDedup m)} ; LEG {leg} || C05={v}"
+            -- `Q <pattern>`: a second pattern in the same spokfile; its set is computed on its own
+            let rec findQ : List String → Option String
+              | "Q" :: q :: _ => some q
+              | _ :: rest => findQ rest
+              | [] => none
+            let setq := match findQ opts with
+              | none => "na"
+              | some q =>
+                if !isGlob q.toList then "notglob"
+                else match Pattern.parse q.toList with
+                  | none => "unsupported"
+                  | some pq => showList (sortDedup ((expandGlob t pq).map showVisit))
+            s!"SEQ {seq} ; SET {showList (sortDedup m)} ; LEG {leg} ; SETQ {setq} || C05={v}"
     | _ => "BAD-CASE || C05=FAIL"
   | _ => "BAD-LINE || C05=FAIL"
 
